@@ -10,10 +10,28 @@ fn seq_text(v: &Value) -> String { v.as_array().map(|a| a.iter().filter_map(|x| 
 fn run_glob(o: &mut Outcome, case: &Value) {
     let pat = seq_text(&case["pat"]);
     if pat.is_empty() { return; }
-    let text = format!("Format: https://www.debian.org/doc/packaging-manuals/copyright-format/1.0/\n\nFiles: {}\nCopyright: 2020 X\nLicense: MIT\n", pat);
-    let feats = vec!["glob".to_string()];
     let expected: std::collections::HashSet<String> = case["m"].as_array().map(|a| a.iter().map(seq_text).collect()).unwrap_or_default();
     let paths: Vec<String> = case["paths"].as_array().map(|a| a.iter().map(seq_text).filter(|p| !p.is_empty()).collect()).unwrap_or_default();
+    glob_row(o, &pat, &expected, &paths, &vec!["glob".to_string()]);
+    // LITERAL SWEEP: matching treats a literal by equality only, so renaming the literal `a` to any other character that
+    // is no metacharacter of the pattern language (and does not occur in the row) renames the matching paths with it -
+    // every printable ASCII character and some multi-byte ones take its place in the short patterns
+    let ntok = case["pat"].as_array().map(|a| a.len()).unwrap_or(0);
+    if ntok <= 2 && pat.contains('a') {
+        for c in "!\"#$%&'()+,-./0:;<=>@A[]^_`{|}~\u{e9}\u{65e5}\u{1f600}".chars() {
+            if c == 'a' || pat.contains(c) || paths.iter().any(|p| p.contains(c)) { continue; }
+            if c == '#' && pat.starts_with('a') { continue; }   // (a continuation / value line starting with '#' is outside the file format)
+            let r = |x: &str| x.replace('a', &c.to_string());
+            let e2: std::collections::HashSet<String> = expected.iter().map(|x| r(x)).collect();
+            let p2: Vec<String> = paths.iter().map(|x| r(x)).collect();
+            glob_row(o, &r(&pat), &e2, &p2, &vec!["glob".to_string(), "literal_sweep".to_string()]);
+        }
+    }
+}
+
+fn glob_row(o: &mut Outcome, pat: &str, expected: &std::collections::HashSet<String>, paths: &[String], feats: &Vec<String>) {
+    let pat = pat.to_string();
+    let text = format!("Format: https://www.debian.org/doc/packaging-manuals/copyright-format/1.0/\n\nFiles: {}\nCopyright: 2020 X\nLicense: MIT\n", pat);
     let ll = guarded("lossless::Copyright::from_str", || debian_copyright::lossless::Copyright::from_str(&text));
     let ly = guarded("lossy::Copyright::from_str", || debian_copyright::lossy::Copyright::from_str(&text));
     let llp = match ll { Ok(Ok(c)) => c.iter_files().next(), Ok(Err(e)) => { o.v("C17", "glob", "lossless::Copyright::from_str", "mismatch", &feats, &text, format!("rejected: {}", e)); None } Err(m) => { o.v("C17", "glob", "lossless::Copyright::from_str", "panic", &feats, &text, m); None } };
